@@ -20,7 +20,8 @@ Definition coh_idx (m : mem) (d : disk) : Prop :=
     exists r, d_accts d !! a = Some r /\
       forall b, next_of ai b = row_next r b /\ last_of ai b = N.pred (row_next r b).
 Definition coh_name (m : mem) (d : disk) : Prop :=
-  forall a ai r, m_accts m !! a = Some ai -> d_accts d !! a = Some r -> ai_name ai = r_name r.
+  forall a ai r, m_accts m !! a = Some ai -> d_accts d !! a = Some r ->
+    (ai_name ai, ai_kind ai) = (r_name r, r_kind r).
 Definition coh_addr (m : mem) (d : disk) : Prop := m_addrs m ⊆ d_addrs d.
 Definition coh_sync (m : mem) (d : disk) : Prop :=
   m_synced m = d_synced d /\ (s_height (m_start m), s_hash (m_start m)) = d_start d.
@@ -29,13 +30,50 @@ Definition coherent (m : mem) (d : disk) : Prop :=
   coh_idx m d /\ coh_name m d /\ coh_addr m d /\ coh_sync m d /\ coh_bday m d.
 
 Lemma info_eq ai r :
-  ai_name ai = r_name r ->
+  (ai_name ai, ai_kind ai) = (r_name r, r_kind r) ->
   (forall b, next_of ai b = row_next r b /\ last_of ai b = N.pred (row_next r b)) ->
   ai = info_of_row r.
 Proof.
-  intros Hn H. destruct (H true) as [H1 H2]. destruct (H false) as [H3 H4].
+  intros [= Hn Hk] H. destruct (H true) as [H1 H2]. destruct (H false) as [H3 H4].
   destruct ai, r; simpl in *. unfold info_of_row; simpl. congruence.
 Qed.
+
+(** With coherent account entries the kind a chained address is reported with
+    is the kind of the account's row. *)
+Lemma kind_view_row m d a :
+  coh_idx m d -> coh_name m d ->
+  kind_view d m a = match d_accts d !! a with Some r => r_kind r | None => None end.
+Proof.
+  intros Hi Hn. unfold kind_view. destruct (m_accts m !! a) as [ai|] eqn:E; [|reflexivity].
+  destruct (Hi a ai E) as (r & Hr & _). rewrite Hr. pose proof (Hn a ai r E Hr) as Hp. injection Hp; auto.
+Qed.
+
+Lemma kind_view_load d m a m1 o a' :
+  load_acct d m a = (m1, o) -> kind_view d m1 a' = kind_view d m a'.
+Proof.
+  unfold load_acct, kind_view. destruct (m_accts m !! a) as [ai|] eqn:E; [intros [= <- <-]; reflexivity|].
+  destruct (d_accts d !! a) as [r|] eqn:Er; intros [= <- <-]; [|reflexivity].
+  simpl. destruct (decide (a' = a)) as [->|Hne].
+  - rewrite lookup_insert, E, Er. reflexivity.
+  - rewrite lookup_insert_ne by congruence. reflexivity.
+Qed.
+
+Lemma found_row m d x :
+  coh_idx m d -> coh_name m d -> found d m x = found d (reopen d) x.
+Proof.
+  intros Hi Hn. destruct x as [a b i|k|k]; simpl; try reflexivity.
+  rewrite (kind_view_row m d a Hi Hn). unfold kind_view; simpl. rewrite lookup_empty. reflexivity.
+Qed.
+
+Lemma found_load d m a m1 o x :
+  load_acct d m a = (m1, o) -> found d m1 x = found d m x.
+Proof.
+  intros HL. destruct x as [a' b i|k|k]; simpl; try reflexivity.
+  rewrite (kind_view_load _ _ _ _ _ a' HL). reflexivity.
+Qed.
+
+Lemma found_addrs d m v x : found d (set_m_addrs v m) x = found d m x.
+Proof. destruct x; reflexivity. Qed.
 
 Lemma coherent_reopen d : coherent (reopen d) d.
 Proof.
@@ -55,12 +93,25 @@ Proof.
   unfold observe. destruct q as [x|a b|a|nm|a| | |h| | ]; simpl; try reflexivity.
   - (* lookup *)
     assert (HE : forall y : addr, y ∈ (∅ : gset addr) -> False) by (intros y; apply not_elem_of_empty).
-    repeat case_bool_decide; try (exfalso; eauto; fail); try reflexivity.
+    assert (HF : forall m1 o a, load_acct d m a = (m1, o) -> found d m1 x = found d (reopen d) x).
+    { intros m1 o a HL. rewrite (found_load _ _ _ _ _ x HL). apply found_row; assumption. }
+    assert (HG : forall m1 o a, load_acct d (reopen d) a = (m1, o) -> found d m1 x = found d (reopen d) x).
+    { intros m1 o a HL. apply (found_load _ _ _ _ _ x HL). }
+    repeat case_bool_decide; try (exfalso; eauto; fail).
     all: try (exfalso; match goal with H : ~ (_ ∈ d_addrs _) |- _ => apply H, Ha; assumption end).
-    all: destruct x as [a b i|k|k]; simpl; try reflexivity.
+    all: try reflexivity.
+    all: destruct x as [a b i|k|k]; try reflexivity.
     all: match goal with H : Chain _ _ _ ∈ d_addrs _ |- _ => destruct (HA _ _ _ H) as [r Hr] end.
-    all: unfold load_acct; simpl; rewrite ?lookup_empty, ?Hr; try reflexivity.
-    destruct (m_accts m !! a); reflexivity.
+    all: destruct (load_acct d (reopen d) a) as [mf [aif|]] eqn:ELf;
+      [|exfalso; revert ELf; unfold load_acct; simpl; rewrite lookup_empty, Hr; discriminate].
+    all: cbn [snd].
+    + (* cached in the running manager *)
+      rewrite (HG _ _ _ ELf). apply found_row; assumption.
+    + (* loaded by both *)
+      destruct (load_acct d m a) as [m1 [ai1|]] eqn:EL1.
+      * cbn [snd]. rewrite (HF _ _ _ EL1), (HG _ _ _ ELf). reflexivity.
+      * exfalso. revert EL1. unfold load_acct. destruct (m_accts m !! a); [discriminate|].
+        rewrite Hr. discriminate.
   - (* last *)
     unfold load_acct; simpl. rewrite lookup_empty.
     destruct (m_accts m !! a) as [ai|] eqn:E.
@@ -179,7 +230,7 @@ Qed.
 
 (** Projections of an account row *)
 Definition idxp (o : option acct_row) : option (N * N) := (fun r => (r_ext r, r_int r)) <$> o.
-Definition namep (o : option acct_row) : option N := r_name <$> o.
+Definition namep (o : option acct_row) : option (N * option wo) := (fun r => (r_name r, r_kind r)) <$> o.
 
 Lemma info_of_row_idx r b :
   next_of (info_of_row r) b = row_next r b /\ last_of (info_of_row r) b = N.pred (row_next r b).
@@ -206,7 +257,7 @@ Lemma coh_name_ext m m' d0 d :
 Proof.
   intros HC (A & B & _) HU a ai r0 H Hr0.
   destruct (B a ai H) as [H1|(H1 & r & Hr & ->)]; [apply (HC a ai r0 H1 Hr0)|].
-  specialize (HU a H1). rewrite Hr, Hr0 in HU. simpl in HU. injection HU as HU. simpl. exact HU.
+  specialize (HU a H1). rewrite Hr, Hr0 in HU. simpl in HU. injection HU as HU1 HU2. simpl. congruence.
 Qed.
 
 Lemma coh_addr_ext m m' d0 d :
@@ -223,11 +274,10 @@ Proof. intros H (_ & _ & _ & _ & _ & F). unfold coh_bday. rewrite F. exact H. Qe
 
 Lemma coherent_ext m m' d : coherent m d -> mem_ext d m m' -> coherent m' d.
 Proof.
-  intros (A & B & C & D & E) HE. repeat split.
+  intros (A & B & C & D & E) HE. split; [|split; [|split; [|split]]].
   - eapply coh_idx_ext; eauto.
   - eapply coh_name_ext; eauto.
   - eapply coh_addr_ext; eauto.
-  - eapply coh_sync_ext; eauto.
   - eapply coh_sync_ext; eauto.
   - eapply coh_bday_ext; eauto.
 Qed.
@@ -240,7 +290,7 @@ Definition AIK (d0 d : disk) (m : mem) (armed issued : bool) : Prop :=
   (armed = false -> forall a, m_accts m !! a = None -> d_accts d !! a = d_accts d0 !! a).
 
 Definition arm (o : op) (armed : bool) : bool :=
-  match o with ONewAccount _ => true | _ => armed end.
+  match o with ONewAccount _ | ONewAccountWO _ _ => true | _ => armed end.
 Definition iss (o : op) (issued : bool) : bool :=
   match o with ONext _ _ _ => true | _ => issued end.
 
@@ -284,11 +334,10 @@ Lemma AIK_ext_accts d0 d m m' issued :
 Proof.
   intros ((A & B & C & D & E) & H2 & H3) HE HA. specialize (H3 eq_refl).
   split; [|split; [exact H2|]].
-  - repeat split.
+  - split; [|split; [|split; [|split]]].
     + eapply coh_idx_ext; eauto. intros a Ha. rewrite (H3 a Ha). reflexivity.
     + eapply coh_name_ext; eauto. intros a Ha. rewrite (H3 a Ha). reflexivity.
     + unfold coh_addr. rewrite HA. exact C.
-    + eapply coh_sync_ext; eauto.
     + eapply coh_sync_ext; eauto.
     + eapply coh_bday_ext; eauto.
   - intros _ a Ha. apply H3. eapply mem_ext_uncached; eauto.
@@ -299,11 +348,10 @@ Lemma AIK_ext_full d0 d m m' :
 Proof.
   intros ((A & B & C & D & E) & H2 & H3) HE. specialize (H3 eq_refl). specialize (H2 eq_refl).
   split; [|split; [auto|]].
-  - repeat split.
+  - split; [|split; [|split; [|split]]].
     + eapply coh_idx_ext; eauto. intros a Ha. rewrite (H3 a Ha). reflexivity.
     + eapply coh_name_ext; eauto. intros a Ha. rewrite (H3 a Ha). reflexivity.
     + eapply coh_addr_ext; eauto. rewrite H2. reflexivity.
-    + eapply coh_sync_ext; eauto.
     + eapply coh_sync_ext; eauto.
     + eapply coh_bday_ext; eauto.
   - intros _ a Ha. apply H3. eapply mem_ext_uncached; eauto.
@@ -316,13 +364,28 @@ Lemma AIK_cong d0 d m armed issued d' m' :
   AIK d0 d m armed issued -> AIK d0 d' m' armed issued.
 Proof.
   intros E1 E2 E3 E4 E5 E6 E7 ((A & B & C & D & E) & H2 & H3).
-  unfold AIK, coherent, coh_idx, coh_name, coh_addr, coh_sync, coh_bday in *.
-  rewrite E1, E2, E3, E5, E6, E7. repeat split; auto; try apply D.
-  intros x Hx. apply C, E4, Hx.
+  split; [|split].
+  - split; [|split; [|split; [|split]]].
+    + unfold coh_idx. rewrite E3. exact A.
+    + unfold coh_name. rewrite E3. exact B.
+    + intros x Hx. apply C, E4, Hx.
+    + unfold coh_sync. rewrite E5, E6. exact D.
+    + unfold coh_bday. rewrite E7. exact E.
+  - rewrite E2. exact H2.
+  - rewrite E1, E3. exact H3.
 Qed.
 
 Lemma AIK_arm d0 d m armed issued : AIK d0 d m armed issued -> AIK d0 d m true issued.
 Proof. intros (A & B & _). split; [exact A|split; [exact B|discriminate]]. Qed.
+
+Lemma new_account_AIK d0 k nm t t' r armed issued :
+  new_account k nm t = (t', r) ->
+  AIK d0 (t_disk t) (t_mem t) armed issued -> AIK d0 (t_disk t') (t_mem t') true issued.
+Proof.
+  intros HS HI. apply AIK_arm in HI. unfold new_account in HS.
+  repeat case_match; simplify_eq; simpl; try exact HI.
+  destruct HI as (A & B & _). split; [exact A|split; [exact B|discriminate]].
+Qed.
 
 Lemma abort_k_step rb d0 o ops t t' r armed issued :
   abort_k rb armed issued (o :: ops) = false ->
@@ -332,11 +395,9 @@ Lemma abort_k_step rb d0 o ops t t' r armed issued :
   abort_k rb (arm o armed) (iss o issued) ops = false.
 Proof.
   intros HK HS HI.
-  destruct o as [nm|a nm|a b n|a b last|x|s| |tm|s v|x bs|q]; simpl in HK; try discriminate.
+  destruct o as [nm|a nm|a b n|a b last|x|s| |tm|s v|x bs|q|nm wk]; simpl in HK; try discriminate.
   - (* new account *)
-    split; [|exact HK]. simpl in HS. apply AIK_arm in HI.
-    repeat case_match; simplify_eq; simpl; try exact HI.
-    destruct HI as (A & B & _). split; [exact A|split; [exact B|discriminate]].
+    split; [|exact HK]. simpl in HS. eapply new_account_AIK; eauto.
   - (* next *)
     apply orb_false_iff in HK as [HK HK2]. apply orb_false_iff in HK as [-> ->].
     split; [|exact HK2]. simpl in HS.
@@ -386,6 +447,8 @@ Proof.
     + apply orb_false_iff in HK as [_ HK]. split; [|exact HK]. simpl in ER. injection ER as <- <-. exact HI.
     + apply orb_false_iff in HK as [_ HK]. split; [|exact HK]. simpl in ER. injection ER as <- <-. exact HI.
     + apply orb_false_iff in HK as [_ HK]. split; [|exact HK]. simpl in ER. injection ER as <- <-. exact HI.
+  - (* new watch-only account *)
+    split; [|exact HK]. simpl in HS. eapply new_account_AIK; eauto.
 Qed.
 
 Lemma abort_k_ops rb d0 ops : forall t t' outs armed issued,
@@ -401,6 +464,9 @@ Proof.
     destruct (abort_k_step rb d0 o ops t t1 x armed issued HK ES HI) as [HI1 HK1].
     eapply IH; eauto.
 Qed.
+
+Lemma rename_switch_eq a nm r d : rename_switch a nm r d = rename_rows a nm r d.
+Proof. unfold rename_switch. destruct (r_kind r); reflexivity. Qed.
 
 (** ** Committed transactions: next indices *)
 
@@ -535,6 +601,20 @@ Definition pend_of (o : op) (pend : list (N * bool)) : list (N * bool) :=
 Lemma pred_plus i n : (n <> 0)%N -> N.pred (i + n) = (i + n - 1)%N.
 Proof. lia. Qed.
 
+Lemma new_account_TI_idx k nm t t' r pend :
+  new_account k nm t = (t', r) ->
+  TI_idx (t_disk t) (t_mem t) (t_cbs t) pend -> TI_idx (t_disk t') (t_mem t') (t_cbs t') pend.
+Proof.
+  intros HS HT. unfold new_account in HS.
+  repeat case_match; simplify_eq; simpl; try exact HT.
+  destruct HT as (A & B & C). split; [|split; [exact B|]].
+  - intros a Ha. simpl in *. destruct (decide (a = d_lastacct (t_disk t) + 1)%N) as [->|Hne]; [lia|].
+    rewrite lookup_insert_ne in Ha by congruence. specialize (A a Ha). lia.
+  - intros a ai Ha. destruct (C a ai Ha) as (r0 & Hr0 & Hb). exists r0. split; [|exact Hb].
+    simpl. assert (a <= d_lastacct (t_disk t))%N by (apply A; eauto).
+    rewrite lookup_insert_ne by lia. exact Hr0.
+Qed.
+
 Lemma commit_idx_step rb o ops t t' r pend :
   commit_k_idx pend (o :: ops) = false ->
   step rb o t = (t', r) ->
@@ -543,19 +623,13 @@ Lemma commit_idx_step rb o ops t t' r pend :
   commit_k_idx (pend_of o pend) ops = false.
 Proof.
   intros HK HS HT.
-  destruct o as [nm|a nm|a b n|a b last|x|s| |tm|s v|x bs|q]; simpl in HK.
+  destruct o as [nm|a nm|a b n|a b last|x|s| |tm|s v|x bs|q|nm wk]; simpl in HK.
   - (* new account *)
-    split; [|exact HK]. simpl in HS.
-    repeat case_match; simplify_eq; simpl; try exact HT.
-    destruct HT as (A & B & C). split; [|split; [exact B|]].
-    + intros a Ha. simpl in *. destruct (decide (a = d_lastacct (t_disk t) + 1)%N) as [->|Hne]; [lia|].
-      rewrite lookup_insert_ne in Ha by congruence. specialize (A a Ha). lia.
-    + intros a ai Ha. destruct (C a ai Ha) as (r0 & Hr0 & Hb). exists r0. split; [|exact Hb].
-      simpl. assert (a <= d_lastacct (t_disk t))%N by (apply A; eauto).
-      rewrite lookup_insert_ne by lia. exact Hr0.
+    split; [|exact HK]. simpl in HS. eapply new_account_TI_idx; eauto.
   - (* rename *)
     split; [|exact HK]. simpl in HS.
     repeat case_match; simplify_eq; simpl; try exact HT.
+    all: rewrite rename_switch_eq; unfold rename_rows; simpl.
     + (* cached *)
       destruct HT as (A & B & C). split; [|split].
       * intros a' Ha'. simpl in *. destruct (decide (a' = a)) as [->|Hne]; [apply A; eauto|].
@@ -626,6 +700,8 @@ Proof.
     apply N.ltb_ge in El.
     destruct (max_addrs <? last)%N.
     { injection HS as <- <-. simpl. exact HT1. }
+    destruct (bool_decide (is_Some (ai_kind ai))).
+    { injection HS as <- <-. simpl. exact HT1. }
     destruct HT1 as (A & B & C).
     destruct (C a ai Ho) as (r0 & Hr0 & Hb0).
     unfold put_chain in HS. rewrite Hr0 in HS. injection HS as <- <-. simpl.
@@ -669,6 +745,8 @@ Proof.
     split; [|exact HK]. simpl in HS.
     destruct (read q (t_disk t) (t_mem t)) as [m' x] eqn:ER. injection HS as <- <-. simpl.
     eapply TI_idx_ext; [exact HT|]. eapply read_ext; exact ER.
+  - (* new watch-only account *)
+    split; [|exact HK]. simpl in HS. eapply new_account_TI_idx; eauto.
 Qed.
 
 (** ** Committed transactions: names, address cache, sync state, birthday *)
@@ -710,6 +788,10 @@ Lemma r_name_set_next b nx r : r_name (row_set_next b nx r) = r_name r.
 Proof. destruct b; reflexivity. Qed.
 Lemma ai_name_set_branch b nx la ai : ai_name (set_branch b nx la ai) = ai_name ai.
 Proof. destruct b; reflexivity. Qed.
+Lemma r_kind_set_next b nx r : r_kind (row_set_next b nx r) = r_kind r.
+Proof. destruct b; reflexivity. Qed.
+Lemma ai_kind_set_branch b nx la ai : ai_kind (set_branch b nx la ai) = ai_kind ai.
+Proof. destruct b; reflexivity. Qed.
 
 Lemma wrap32_small t : (0 <=? t)%Z && (t <? 4294967296)%Z = true -> wrap32 t = t.
 Proof. intros H. apply andb_true_iff in H as [H1 H2]. unfold wrap32. apply Z.mod_small. lia. Qed.
@@ -718,7 +800,7 @@ Lemma TI_rest_put d m m' cbs a b xs r0 nx newcbs :
   TI_rest d m cbs -> d_accts d !! a = Some r0 ->
   (forall x, x ∈ xs -> exists j, x = Chain a b j) ->
   (forall a' ai', m_accts m' !! a' = Some ai' ->
-     exists ai0, m_accts m !! a' = Some ai0 /\ ai_name ai' = ai_name ai0) ->
+     exists ai0, m_accts m !! a' = Some ai0 /\ ai_name ai' = ai_name ai0 /\ ai_kind ai' = ai_kind ai0) ->
   m_addrs m' ⊆ list_to_set xs ∪ m_addrs m ->
   m_synced m' = m_synced m -> m_start m' = m_start m -> m_birthday m' = m_birthday m ->
   Forall (fun c => forall x, x ∈ cb_addrs c -> x ∈ xs) newcbs ->
@@ -728,9 +810,9 @@ Proof.
   intros (A & B & C & D & [E1 E2] & F) Hr0 Hxs Hacc Hadd Hs1 Hs2 Hs3 Hnew.
   unfold TI_rest, coh_sync, coh_bday. simpl. rewrite Hs1, Hs2, Hs3.
   repeat split; auto.
-  - intros a' ai' r' Ha' Hr'. simpl in Hr'. destruct (Hacc a' ai' Ha') as (ai0 & Hai0 & ->).
+  - intros a' ai' r' Ha' Hr'. simpl in Hr'. destruct (Hacc a' ai' Ha') as (ai0 & Hai0 & -> & ->).
     destruct (decide (a' = a)) as [->|Hne].
-    + rewrite lookup_insert in Hr'. injection Hr' as <-. rewrite r_name_set_next. eapply A; eauto.
+    + rewrite lookup_insert in Hr'. injection Hr' as <-. rewrite r_name_set_next, r_kind_set_next. eapply A; eauto.
     + rewrite lookup_insert_ne in Hr' by congruence. eapply A; eauto.
   - intros y Hy. simpl. apply Hadd in Hy. apply elem_of_union in Hy as [Hy|Hy]; [set_solver|].
     apply B in Hy. set_solver.
@@ -751,6 +833,24 @@ Proof.
   simpl. rewrite (wrap32_small _ Ht). destruct s; reflexivity.
 Qed.
 
+Lemma new_account_TI_rest k nm t t' r pend :
+  new_account k nm t = (t', r) ->
+  TI_idx (t_disk t) (t_mem t) (t_cbs t) pend ->
+  TI_rest (t_disk t) (t_mem t) (t_cbs t) -> TI_rest (t_disk t') (t_mem t') (t_cbs t').
+Proof.
+  intros HS HI HR. unfold new_account in HS.
+  repeat case_match; simplify_eq; simpl; try exact HR.
+  destruct HR as (A & B & C & D & E & F). destruct HI as (IA & IB & IC).
+  repeat split; auto; try apply E.
+  - intros a ai r0 Ha Hr0. simpl in Hr0.
+    destruct (IC a ai Ha) as (r1 & Hr1 & _).
+    assert (a <= d_lastacct (t_disk t))%N by (apply IA; eauto).
+    rewrite lookup_insert_ne in Hr0 by lia. eapply A; eauto.
+  - intros a b i Hx. simpl in *. specialize (D a b i Hx).
+    destruct (decide (a = d_lastacct (t_disk t) + 1)%N) as [->|Hne]; [rewrite lookup_insert; eauto|].
+    rewrite lookup_insert_ne by congruence. exact D.
+Qed.
+
 Lemma commit_rest_step rb o t t' r pend :
   op_times_ok o = true -> is_synced_nil o = false ->
   step rb o t = (t', r) ->
@@ -759,23 +859,18 @@ Lemma commit_rest_step rb o t t' r pend :
   TI_rest (t_disk t') (t_mem t') (t_cbs t').
 Proof.
   intros HT HN HS HI HR.
-  destruct o as [nm|a nm|a b n|a b last|x|s| |tm|s v|x bs|q]; simpl in HN; try discriminate.
+  destruct o as [nm|a nm|a b n|a b last|x|s| |tm|s v|x bs|q|nm wk]; simpl in HN; try discriminate.
   - (* new account *)
-    simpl in HS. repeat case_match; simplify_eq; simpl; try exact HR.
-    destruct HR as (A & B & C & D & E & F). destruct HI as (IA & IB & IC).
-    repeat split; auto; try apply E.
-    + intros a ai r0 Ha Hr0. simpl in Hr0.
-      destruct (IC a ai Ha) as (r1 & Hr1 & _).
-      assert (a <= d_lastacct (t_disk t))%N by (apply IA; eauto).
-      rewrite lookup_insert_ne in Hr0 by lia. eapply A; eauto.
-    + intros a b i Hx. simpl in *. specialize (D a b i Hx).
-      destruct (decide (a = d_lastacct (t_disk t) + 1)%N) as [->|Hne]; [rewrite lookup_insert; eauto|].
-      rewrite lookup_insert_ne by congruence. exact D.
+    simpl in HS. eapply new_account_TI_rest; eauto.
   - (* rename *)
     simpl in HS. repeat case_match; simplify_eq; simpl; try exact HR.
+    all: rewrite rename_switch_eq; unfold rename_rows; simpl.
     + destruct HR as (A & B & C & D & E & F). repeat split; auto; try apply E.
       * intros a' ai' r' Ha' Hr'. simpl in *. destruct (decide (a' = a)) as [->|Hne].
-        -- rewrite lookup_insert in Ha'; rewrite lookup_insert in Hr'. simplify_eq. reflexivity.
+        -- rewrite lookup_insert in Ha'; rewrite lookup_insert in Hr'. simplify_eq. simpl.
+           match goal with Hm : m_accts (t_mem t) !! a = Some ?ai0, Hd : d_accts (t_disk t) !! a = Some ?r0 |- _ =>
+             pose proof (A a ai0 r0 Hm Hd) as Hp end.
+           injection Hp as _ Hk. rewrite Hk. reflexivity.
         -- rewrite lookup_insert_ne in Ha' by congruence; rewrite lookup_insert_ne in Hr' by congruence. eapply A; eauto.
       * intros a' b' i' Hx. simpl in *. specialize (D a' b' i' Hx).
         destruct (decide (a' = a)) as [->|Hne]; [rewrite lookup_insert; eauto|].
@@ -799,7 +894,7 @@ Proof.
     unfold put_chain in HS. rewrite Hr0 in HS. injection HS as <- <-. simpl.
     eapply TI_rest_put; [exact HR1|exact Hr0|..].
     + intros y Hy. eapply elem_of_chain_range; exact Hy.
-    + intros a' ai' Ha'. exists ai'. split; [|reflexivity]. destruct rb; exact Ha'.
+    + intros a' ai' Ha'. exists ai'. split; [|auto]. destruct rb; exact Ha'.
     + destruct rb; simpl; set_solver.
     + destruct rb; reflexivity.
     + destruct rb; reflexivity.
@@ -814,6 +909,7 @@ Proof.
     destruct o as [ai|]; [|injection HS as <- <-; exact HR1].
     destruct (last <? next_of ai b)%N; [injection HS as <- <-; exact HR1|].
     destruct (max_addrs <? last)%N; [injection HS as <- <-; exact HR1|].
+    destruct (bool_decide (is_Some (ai_kind ai))); [injection HS as <- <-; exact HR1|].
     destruct HI1 as (IA & IB & IC). destruct (IC a ai Ho) as (r0 & Hr0 & _).
     unfold put_chain in HS. rewrite Hr0 in HS. injection HS as <- <-. simpl.
     rewrite <- (app_nil_r (t_cbs t)).
@@ -821,7 +917,7 @@ Proof.
     + intros y Hy. eapply elem_of_chain_range; exact Hy.
     + intros a' ai' Ha'. simpl in Ha'. destruct (decide (a' = a)) as [->|Hne].
       * rewrite lookup_insert in Ha'. injection Ha' as <-. exists ai. split; [exact Ho|].
-        apply ai_name_set_branch.
+        split; [apply ai_name_set_branch|apply ai_kind_set_branch].
       * rewrite lookup_insert_ne in Ha' by congruence. eauto.
     + simpl. set_solver.
     + reflexivity.
@@ -857,6 +953,8 @@ Proof.
   - (* read *)
     simpl in HS. destruct (read q (t_disk t) (t_mem t)) as [m' x] eqn:ER. injection HS as <- <-. simpl.
     eapply TI_rest_ext; [exact HR|]. eapply read_ext; exact ER.
+  - (* new watch-only account *)
+    simpl in HS. eapply new_account_TI_rest; eauto.
 Qed.
 
 Lemma TI_rest_run_cb d m c cbs :
@@ -868,7 +966,7 @@ Proof.
   destruct (m_accts m !! cb_acct c) as [ai|] eqn:Eai; simpl.
   - repeat split; auto; try apply E.
     + intros a ai' r Ha Hr. simpl in Ha. destruct (decide (a = cb_acct c)) as [->|Hne].
-      * rewrite lookup_insert in Ha. injection Ha as <-. rewrite ai_name_set_branch. eapply A; eauto.
+      * rewrite lookup_insert in Ha. injection Ha as <-. rewrite ai_name_set_branch, ai_kind_set_branch. eapply A; eauto.
       * rewrite lookup_insert_ne in Ha by congruence. eapply A; eauto.
     + intros y Hy. simpl in Hy. apply elem_of_union in Hy as [Hy|Hy]; [|auto].
       apply elem_of_list_to_set in Hy. auto.
@@ -940,6 +1038,16 @@ Qed.
 Lemma AI_idx_weaken d0 d m armed : AI_idx d0 d m armed -> AI_idx d0 d m true.
 Proof. intros [A _]. split; [exact A|discriminate]. Qed.
 
+Lemma new_account_AI_idx d0 k nm t t' r armed :
+  new_account k nm t = (t', r) ->
+  AI_idx d0 (t_disk t) (t_mem t) armed -> AI_idx d0 (t_disk t') (t_mem t') true.
+Proof.
+  intros HS HI. unfold new_account in HS.
+  repeat case_match; simplify_eq; simpl; apply AI_idx_weaken in HI;
+    (eapply AI_idx_cong; [..|exact HI]; reflexivity) || exact HI || idtac.
+  destruct HI as [A _]. split; [exact A|discriminate].
+Qed.
+
 Lemma abort_idx_step rb d0 o ops t t' r armed :
   abort_k_idx armed (o :: ops) = false ->
   step rb o t = (t', r) ->
@@ -947,15 +1055,13 @@ Lemma abort_idx_step rb d0 o ops t t' r armed :
   AI_idx d0 (t_disk t') (t_mem t') (arm o armed) /\ abort_k_idx (arm o armed) ops = false.
 Proof.
   intros HK HS HI.
-  destruct o as [nm|a nm|a b n|a b last|x|s| |tm|s v|x bs|q]; simpl in HK; try discriminate.
+  destruct o as [nm|a nm|a b n|a b last|x|s| |tm|s v|x bs|q|nm wk]; simpl in HK; try discriminate.
   - (* new account *)
-    split; [|exact HK]. simpl in HS.
-    repeat case_match; simplify_eq; simpl; apply AI_idx_weaken in HI;
-      (eapply AI_idx_cong; [..|exact HI]; reflexivity) || exact HI || idtac.
-    destruct HI as [A _]. split; [exact A|discriminate].
+    split; [|exact HK]. simpl in HS. eapply new_account_AI_idx; eauto.
   - (* rename *)
     apply orb_false_iff in HK as [_ HK]. split; [|exact HK]. simpl in HS.
     repeat case_match; simplify_eq; simpl; try exact HI.
+    all: rewrite rename_switch_eq; unfold rename_rows; simpl.
     + destruct HI as [A B]. split.
       * intros a' ai' Ha'. simpl in Ha'. destruct (decide (a' = a)) as [->|Hne].
         -- rewrite lookup_insert in Ha'. injection Ha' as <-.
@@ -1014,6 +1120,8 @@ Proof.
     + simpl in HL. pose proof (read_nonloading q (t_disk t) (t_mem t) HL) as HN.
       rewrite ER in HN. simpl in HN. subst. exact HI.
     + eapply AI_idx_ext; [exact HI|]. eapply read_ext; exact ER.
+  - (* new watch-only account *)
+    split; [|exact HK]. simpl in HS. eapply new_account_AI_idx; eauto.
 Qed.
 
 Lemma abort_idx_ops rb d0 ops : forall t t' outs armed,
@@ -1198,7 +1306,7 @@ Lemma index_queries_equal_restart rb d0 h a :
   let s := final rb h (opened d0) in
   (forall b, observe (mem_of s) (disk_of s) (QLast a b) = observe (reopen (disk_of s)) (disk_of s) (QLast a b)) /\
   match observe (mem_of s) (disk_of s) (QProps a), observe (reopen (disk_of s)) (disk_of s) (QProps a) with
-  | AProps _ e i _, AProps _ e' i' _ => e = e' /\ i = i'
+  | AProps _ e i _ _, AProps _ e' i' _ _ => e = e' /\ i = i'
   | AErr e, AErr e' => e = e'
   | _, _ => False
   end.
@@ -1254,7 +1362,7 @@ Lemma issue_step_J rb d0 m0 o t t' r :
   issue_or_read o = true -> step rb o t = (t', r) ->
   J d0 m0 (t_disk t) (t_mem t) -> J d0 m0 (t_disk t') (t_mem t').
 Proof.
-  intros HO HS HJ. destruct o as [| |a b n| | | | | | | |q]; try discriminate.
+  intros HO HS HJ. destruct o as [| |a b n| | | | | | | |q|]; try discriminate.
   - simpl in HS.
     destruct (load_acct (t_disk t) (t_mem t) a) as [m1 o] eqn:EL.
     apply load_acct_ext in EL as (HE & HAd & Ho).
@@ -1316,7 +1424,7 @@ Lemma abort_k_idx_sub rb ops : forall armed issued,
   abort_k_idx armed ops = true -> abort_k rb armed issued ops = true.
 Proof.
   induction ops as [|o ops IH]; intros armed issued H; [discriminate|].
-  destruct o as [nm|a nm|a b n|a b last|x|s| |tm|s v|x bs|q]; simpl in *; auto.
+  destruct o as [nm|a nm|a b n|a b last|x|s| |tm|s v|x bs|q|nm wk]; simpl in *; auto.
   - apply orb_true_iff in H as [H|H]; [subst; apply orb_true_iff; left; apply orb_true_r|].
     apply orb_true_iff. right. auto.
   - apply orb_true_iff in H as [H|H]; apply orb_true_iff; auto.
@@ -1345,7 +1453,7 @@ Qed.
 
 (** ** The database [Create] leaves is well formed *)
 
-Lemma wf_created g t b : wf_disk (created g t b).
+Lemma wf_created sch g t b : wf_disk (created sch g t b).
 Proof.
   split.
   - intros a [r Hr]. simpl in *. apply lookup_singleton_Some in Hr as [<- _]. lia.
@@ -1354,7 +1462,7 @@ Qed.
 
 (** ** Witnesses inside K (all from the database [Create] leaves) *)
 
-Definition d_wit : disk := created 0 1231006505 1599827200.
+Definition d_wit : disk := created (4%N, 4%N) 0 1231006505 1599827200.
 Definition tx (ops : list op) (f : fate) : txn := {| tx_ops := ops; tx_fate := f; tx_queries := [] |}.
 Definition diverges (rb : bool) (h : list txn) (q : query) : bool :=
   let s := final rb h (opened d_wit) in
